@@ -49,6 +49,10 @@ fn main() {
 fn real_main(args: &[String]) -> i32 {
     let Some(cmd) = args.first() else { return usage() };
     let rest = &args[1..];
+    if cmd.starts_with("c14-") || cmd.starts_with("c19-") {
+        // every process that runs the crate under test
+        report::limit_memory();
+    }
     match cmd.as_str() {
         "C14" | "C19" => {
             if rest.first().map(|s| s.as_str()) == Some("--replay") {
